@@ -336,7 +336,9 @@ class Agent(dbus.service.Object):
             ctr = self._fwd_queue.pop(0)
 
             # the lists are changed by remove_block()
-            for blk in tuple(ctr.block_type(PreviousNodeBlock)):
+            # (looked up by type code: the content may be something this node cannot parse)
+            prev_type = PreviousNodeBlock._overload_fields[CanonicalBlock]['type_code']
+            for blk in tuple(ctr.block_type(prev_type)):
                 ctr.remove_block(blk)
             ctr.add_block(CanonicalBlock() / PreviousNodeBlock(node=self._config.node_id))
 
